@@ -426,6 +426,24 @@ def build_class(recorder, ctx, world, cls_params, has_extractor, opt_sets, class
         if k == 'data':
             tr.record_data('k1', ctx.user_data)
             return ('none', None)
+        if k == 'disable':
+            if not ctx.replaying:
+                tr.disable_recording()
+            return ('none', None)
+        if k == 'subop':
+            # a nested operation of a class registered as skipped: nothing of it may reach the recording or the replay
+            helper = getattr(ctx, 'skipped_helper', None)
+            if helper is None or helper[0] is not tr:
+                class SkippedSubOperation(object):
+                    @tr.operation()
+                    def execute(self):
+                        return ['result of the nested, skipped operation']
+                SkippedSubOperation.__module__ = opclasses.__name__
+                setattr(opclasses, 'SkippedSubOperation', SkippedSubOperation)
+                tr.recording_params(RecordingParameters(skipped=True))(SkippedSubOperation)
+                helper = ctx.skipped_helper = (tr, SkippedSubOperation)
+            helper[1]().execute()
+            return ('none', None)
         if k == 'playdata':
             return ('val', tr.play_data('k1'))
         if k == 'mutate':
@@ -845,28 +863,28 @@ class Driver(object):
                 nb = len([b for b in jr['bodies'] if b['alias'] == st['alias'] and not b.get('inner')])
                 if nb != e['bodyRuns']:
                     self._mm(out, 'bodies', x, e['bodyRuns'], nb, 'wrapped body of %s executed %d times' % (st['alias'], nb))
-            obs = jr.get('obs')
-            if obs is not None:
+            sobs = jr.get('obs')
+            if sobs is not None:
                 st_model = beh[x]
                 ncalls += len(e['calls'])
-                if obs['ncalls'] != ncalls:
+                if sobs['ncalls'] != ncalls:
                     self._mm(out, 'calls_step', x, list(e['calls']), [c[0] for c in self.spy.log[log0:]],
                              'cassette calls up to this step')
-                    ncalls = obs['ncalls']
+                    ncalls = sobs['ncalls']
                 exp_in_rec = bool(st_model['rec']['enabled'] and st_model['rec']['active'])
-                if obs['in_rec'] != exp_in_rec:
-                    self._mm(out, 'state', x, exp_in_rec, obs['in_rec'], 'in_recording_mode')
-                if obs['forced'] != bool(st_model['rec']['force']):
-                    self._mm(out, 'state', x, bool(st_model['rec']['force']), obs['forced'], 'is_recording_sample_forced')
-                if enter['icpt'] and obs['keys'] is not None:
+                if sobs['in_rec'] != exp_in_rec:
+                    self._mm(out, 'state', x, exp_in_rec, sobs['in_rec'], 'in_recording_mode')
+                if sobs['forced'] != bool(st_model['rec']['force']):
+                    self._mm(out, 'state', x, bool(st_model['rec']['force']), sobs['forced'], 'is_recording_sample_forced')
+                if enter['icpt'] and sobs['keys'] is not None:
                     mkeys = set(tuple(k) for k in e['keys'])
-                    newreal = obs['keys'] - prev_keys
+                    newreal = sobs['keys'] - prev_keys
                     newmodel = mkeys - prev_model_keys
                     self._bind_keys(newreal, newmodel, st)
-                    tokens = set(self._key_token(k) for k in obs['keys'])
+                    tokens = set(self._key_token(k) for k in sobs['keys'])
                     if st_model['rec']['active'] and tokens != mkeys:
                         self._mm(out, 'keys', x, sorted(mkeys), sorted(tokens, key=repr), 'keys in the active recording')
-                    prev_keys = set(obs['keys'])
+                    prev_keys = set(sobs['keys'])
                     prev_model_keys = mkeys
         obs['steps'] = [jr['token'] for jr in ctx.journal]
         obs['bodies'] = [sorted((b['alias'], b.get('inner', False)) for b in jr['bodies']) for jr in ctx.journal]
@@ -937,6 +955,22 @@ class Driver(object):
                         self._mm(out, 'store_values', j, sorted(exp.items()), sorted(got.items(), key=repr),
                                  'content of the saved recording')
                     self._check_meta(fetched.get_metadata(), model['meta'], cls, j, out, float(len(ctx.journal)), wall)
+                    # a run cut short inside an intercepted call leaves no entry for that call: unless the saved recording
+                    # is flagged incomplete, its replay on unchanged code must fail on exactly that missing entry
+                    real_inc = fetched.get_metadata().get(TapeRecorder.INCOMPLETE_RECORDING)
+                    if model['meta']['incomplete'] and real_inc is False:
+                        nout = {}
+                        for st in steps:
+                            if st['kind'] == 'out':
+                                nout[st['alias']] = nout.get(st['alias'], 0) + 1
+                            cut = st['body'] == 'interrupt' or tuple(st['res'])[0] == 'int'
+                            tok = ('in', st['alias'], st['arg']) if st['kind'] == 'in' else ('res', st['alias'], nout.get(st['alias'], 0))
+                            if cut and tok not in got:
+                                self._mm(out, 'pmissing', j, 'flagged incomplete', 'not flagged incomplete',
+                                         'the run was cut short inside the intercepted call %s: the saved recording has no entry '
+                                         'for it, is not flagged incomplete, and so cannot replay without a missing-key error'
+                                         % (tok,))
+                                break
             if self.check_default_lookup:
                 self._check_default_lookup(beh, j, cls, out)
 
